@@ -1,6 +1,7 @@
 package main
 
 import (
+	"regexp"
 	"fmt"
 	"go/token"
 	"go/types"
@@ -707,13 +708,47 @@ func designatorOfRow(p *Program, row ssa.Value, loops []*natLoop) (string, bool)
 			return indexDesignator(x.Index, loops), true
 		}
 	case *ssa.Alloc:
-		// local copy `templateRow := t.Rows[0]`
+		// local copy `templateRow := t.Rows[0]`; a variable assigned from several rows
+		// (`if position > 0 { templateRow = t.Rows[position-1] }`) designates none of them in particular
+		var ds []string
 		if refs := x.Referrers(); refs != nil {
 			for _, in := range *refs {
 				if st, ok := in.(*ssa.Store); ok && st.Addr == ssa.Value(x) {
-					return designatorOfRow(p, st.Val, loops)
+					if d, ok := designatorOfRow(p, st.Val, loops); ok {
+						dup := false
+						for _, e := range ds {
+							if e == d {
+								dup = true
+							}
+						}
+						if !dup {
+							ds = append(ds, d)
+						}
+					}
 				}
 			}
+		}
+		sort.Strings(ds)
+		switch len(ds) {
+		case 0:
+		case 1:
+			return ds[0], true
+		default:
+			return "one-of(" + strings.Join(ds, "|") + ")", true
+		}
+	case *ssa.Phi:
+		var ds []string
+		for _, e := range x.Edges {
+			if d, ok := designatorOfRow(p, e, loops); ok {
+				ds = append(ds, d)
+			}
+		}
+		sort.Strings(ds)
+		if len(ds) == 1 {
+			return ds[0], true
+		}
+		if len(ds) > 1 {
+			return "one-of(" + strings.Join(ds, "|") + ")", true
 		}
 	}
 	return "", false
@@ -748,12 +783,8 @@ func indexDesignator(idx ssa.Value, loops []*natLoop) string {
 // stableDesignator removes SSA register names from a row designator so that obligation keys do
 // not change when unrelated edits renumber the registers.
 func stableDesignator(d string) string {
-	if i := strings.Index(d, "∀loop:"); i >= 0 {
-		return d[:i] + "∀loop"
-	}
-	if strings.HasPrefix(d, "v:") {
-		return "v"
-	}
+	d = regexp.MustCompile(`∀loop:[A-Za-z0-9_]+`).ReplaceAllString(d, "∀loop")
+	d = regexp.MustCompile(`v:t[0-9]+`).ReplaceAllString(d, "v")
 	return d
 }
 
